@@ -151,6 +151,24 @@ func vh_C11_response_and_rto() {
 	vxReach("done")
 }
 
+// a failing retransmission ends the transaction: the error is reported once and nothing more is written
+func vh_C11_write_error() {
+	env := vxNewClient()
+	env.c.maxAttempts = int32(1 + vxChoose(3))
+	env.c.SetRTO(100)
+	id := vxID()
+	rec := &vxCalls{}
+	vxAssert(env.c.Start(vxRequest(id, 40), rec.handle) == nil, "Start succeeds")
+	env.conn.failNext = true
+	env.tick(env.clock.now.Add(1000)) // deadline passed: the retransmission's write fails
+	vxAssert(len(rec.events) == 1 && errors.Is(rec.events[0].Error, errVxWrite), "the write error of the failed retransmission is reported once")
+	vxAssert(len(env.conn.writes) == 1, "the failed retransmission is the last attempt to write for this transaction")
+	env.tick(env.clock.now.Add(100000))
+	vxAssert(len(env.conn.writes) == 1 && len(rec.events) == 1, "nothing is written or reported after the transaction ended with an error")
+	vxAssert(env.c.t[id] == nil, "the transaction is gone")
+	vxReach("done")
+}
+
 func vh_C11_selftest() {
 	env := vxNewClient()
 	id := vxID()
